@@ -180,6 +180,9 @@ def symlink_ops(cfg, skey='S', target='a'):
         if not cfg.get('rr'):
             out.append(['add_symlink', {'symlink_path': join('/', f['iso']),
                                         'udf_symlink_path': join('/', f['udf']), 'udf_target': target}])
+            if cfg.get('joliet'):
+                out.append(['add_symlink', {'symlink_path': join('/', f['iso']), 'joliet_path': join('/', f['joliet']),
+                                            'udf_symlink_path': join('/', f['udf']), 'udf_target': target}])
     return out
 
 
